@@ -83,7 +83,11 @@ func build(n *tg.Node) *cnode {
 		}
 	case tg.KObj:
 		for _, p := range n.Props {
-			c.keys = append(c.keys, ckey{p.Key, p.Shortcut})
+			k := p.Key
+			if !p.Shortcut {
+				k = DecodeKey(k) // two spellings of one name are one key
+			}
+			c.keys = append(c.keys, ckey{k, p.Shortcut})
 			c.children = append(c.children, build(p.Val))
 		}
 		c.allOf = append(c.allOf, n.AllOf...)
